@@ -32,7 +32,7 @@ impl SpecialCase {
         Self {
             family: family.to_string(),
             seed,
-            n: if dense { 1 + (index as usize / 2) % (4 * TREE_FRAMES) } else { 0 },
+            n: if dense { 1 + (index as usize / 2) % (4 * TREE_FRAMES) } else if family == "Q4" { index as usize } else { 0 },
             flag: if dense { 1 + (index % 2) as u8 } else { 0 },
         }
     }
@@ -57,7 +57,7 @@ impl SpecialCase {
         let mut rng = Rng::new(self.seed);
         match self.family.as_str() {
             "Q2" | "Q2dense" => q2(self, ctx, &mut rng, &mut out),
-            "Q4" => q4(ctx, &mut rng, &mut out),
+            "Q4" => q4(self, ctx, &mut rng, &mut out),
             "Q8" => q8(&mut rng, &mut out),
             _ => qb(ctx, &mut rng, &mut out),
         }
@@ -322,7 +322,7 @@ fn q2(case: &SpecialCase, ctx: &Ctx, rng: &mut Rng, out: &mut RunOut) {
 // ------------------------------------------------------------------------------------------
 // Q4: directed search inside one tree over structured allocation patterns (C12)
 
-fn q4(ctx: &Ctx, rng: &mut Rng, out: &mut RunOut) {
+fn q4(case: &SpecialCase, ctx: &Ctx, rng: &mut Rng, out: &mut RunOut) {
     let trees = rng.range(1, 2);
     let frames = trees * TREE_FRAMES - if rng.chance(1, 3) { rng.range(1, HUGE_FRAMES + 70) } else { 0 };
     let cfg = Config {
@@ -341,11 +341,29 @@ fn q4(ctx: &Ctx, rng: &mut Rng, out: &mut RunOut) {
     let tree_base = t * TREE_FRAMES;
     let tree_len = model.tree_len(t);
     // ---- build the pattern through the real lower-level API ----
-    let unit_order = *rng.pick(&[0usize, 2, 3, 5, 6, 7, 9]);
+    // bounded-exhaustive sub-modes, enumerated by the run index:
+    //  row level:  the tree is full except one row, whose eight 8-frame units take every
+    //              one of the 256 free/allocated combinations
+    //  huge level: every huge frame of the tree is free / full / has a single allocated frame
+    //              (3^TREE_HUGE combinations)
+    let idx = case.n;
+    let exhaustive: Option<(bool, usize, usize)> = match idx % 4 {
+        1 => Some((true, (idx / 4) % 256, rng.below(TREE_FRAMES / 64))),
+        3 => Some((false, (idx / 4) % 3usize.pow(crate::model::TREE_HUGE as u32), 0)),
+        _ => None,
+    };
+    let unit_order = match exhaustive {
+        Some((true, _, _)) => 3,
+        Some((false, _, _)) => HUGE_ORDER,
+        None => *rng.pick(&[0usize, 2, 3, 5, 6, 7, 9]),
+    };
     let unit = 1usize << unit_order;
     let mut pattern = Vec::new();
     let mut built = 0u64;
     let mode = rng.below(4);
+    if exhaustive.is_some() {
+        bump(out, "exhaustive_pattern_runs", 1);
+    }
     let r = guarded(|| {
         let mut f = tree_base;
         while f + unit <= tree_base + tree_len {
@@ -355,6 +373,18 @@ fn q4(ctx: &Ctx, rng: &mut Rng, out: &mut RunOut) {
                 1 => rng.weighted(&[3, 3, 1, 1, 2]),
                 2 => rng.weighted(&[1, 10, 1, 0, 0]),
                 _ => rng.weighted(&[2, 2, 2, 2, 2]),
+            };
+            let kind = match exhaustive {
+                Some((true, pat, row)) => {
+                    let rel = f - tree_base;
+                    if rel / 64 == row { ((pat >> ((rel % 64) / 8)) & 1 == 0) as usize } else { 1 }
+                }
+                Some((false, pat, _)) => match (pat / 3usize.pow(((f - tree_base) / HUGE_FRAMES) as u32)) % 3 {
+                    0 => 0,
+                    1 => 1,
+                    _ => 3,
+                },
+                None => kind,
             };
             pattern.push(kind as u8);
             let mut set = |frame: usize, order: usize, model: &mut Model| -> bool {
